@@ -261,7 +261,22 @@ func genC11(r *rand.Rand, run int, tier string) *vm.Plan {
 		for k := 0; k < n; k++ {
 			b := c11Program(r, g)
 			lim := pickLimits(r, b)
-			p.Ops = append(p.Ops, vm.Op{K: "dl", Blk: &b, Lim: lim, Perm: r.Perm(len(b.Facts))})
+			var qs []ref.Rule
+			if len(b.Facts) > 0 && r.Intn(3) == 0 {
+				// queries after a successful run, among them ill-formed ones (a head variable the body
+				// does not bind, over a predicate with several facts): whatever a query returns, it
+				// leaves no goroutine behind
+				f := b.Facts[r.Intn(len(b.Facts))]
+				body := ref.Pred{Name: f.Name}
+				for i := range f.Terms {
+					body.Terms = append(body.Terms, ref.Var(fmt.Sprintf("q%d", i)))
+				}
+				qs = append(qs, ref.Rule{Head: ref.Pred{Name: "illformed", Terms: []ref.Term{ref.Var("nowhere")}}, Body: []ref.Pred{body}})
+				if r.Intn(2) == 0 {
+					qs = append(qs, ref.Rule{Head: body, Body: []ref.Pred{body}})
+				}
+			}
+			p.Ops = append(p.Ops, vm.Op{K: "dl", Blk: &b, Qs: qs, Lim: lim, Perm: r.Perm(len(b.Facts))})
 		}
 		p.Note = "world"
 	} else {
